@@ -908,3 +908,156 @@ void h_quasiquote(void) {
     }
     REACH("quasiquote: sequence");
 }
+
+/* ================================================================== fn: parameter list */
+static const uint8_t sp_amp[] = "&", sp_optm[] = "&opt", sp_keysm[] = "&keys", sp_namedm[] = "&named", sp_fname[] = "self";
+static const uint8_t sp_pn[6][3] = { "p0", "p1", "p2", "p3", "p4", "p5" };
+int sp_cstrcmp_fn_stub(const uint8_t *str, const char *other) {
+    if (str == sp_amp) return other[1] == 0 ? 0 : 1;
+    if (str == sp_optm) return other[1] == 'o' ? 0 : 1;
+    if (str == sp_keysm) return other[1] == 'k' ? 0 : 1;
+    if (str == sp_namedm) return other[1] == 'n' ? 0 : 1;
+    return 1;
+}
+static struct { JanetTupleHead head; Janet data[8]; } sp_params;
+static JanetFuncDef sp_def;
+static JanetTable sp_named_tab;
+static int sp_popdef_calls, sp_pop_scope_is_function, sp_pop_nsyms, sp_tabput_calls, sp_destr_calls, sp_destr_left_type;
+static int32_t sp_destr_right, sp_defindex, sp_pop_codelen;
+static uint32_t sp_pop_lastinstr;
+static SymPair sp_pop_syms[8];
+int sp_destructure_stub(JanetCompiler *c, Janet left, JanetSlot right, int (*leaf)(JanetCompiler *c, const uint8_t *sym, JanetSlot s, JanetTable *attr), JanetTable *attr) {
+    sp_destr_calls++; sp_destr_left_type = left.type; sp_destr_right = right.index; return 1;
+}
+JanetTable *sp_table_stub(int32_t cap) { return &sp_named_tab; }
+void sp_table_put_stub(JanetTable *t, Janet key, Janet value) { sp_tabput_calls++; }
+/* contract of janetc_pop_funcdef as far as janetc_fn goes: takes the code of the current FUNCTION scope out of the buffer,
+ * pops that scope, returns a definition whose slot count covers the registers handed out */
+JanetFuncDef *sp_pop_funcdef_fn_stub(JanetCompiler *c) {
+    sp_popdef_calls++;
+    JanetScope *sc = c->scope;
+    sp_pop_scope_is_function = (sc->flags & JANET_SCOPE_FUNCTION) != 0 && sc->parent == &sp_outer;
+    sp_pop_nsyms = janet_v_count(sc->syms);
+    for (int i = 0; i < 8; i++) if (i < sp_pop_nsyms) sp_pop_syms[i] = sc->syms[i];
+    int32_t n = janet_v_count(c->buffer);
+    sp_pop_codelen = n - sc->bytecode_start;
+    sp_pop_lastinstr = n > 0 ? c->buffer[n - 1] : 0;
+    janet_v__cnt(c->buffer) = sc->bytecode_start; janet_v__cnt(c->mapbuffer) = sc->bytecode_start;
+    c->scope = sc->parent; c->scope->child = (JanetScope *)0;
+    sp_def.slotcount = sp_alloc_calls; sp_def.arity = -1; sp_def.min_arity = -1; sp_def.max_arity = -1; sp_def.flags = 0; sp_def.name = (const uint8_t *)0;
+    return &sp_def;
+}
+int32_t sp_addfuncdef_fn_stub(JanetCompiler *c, JanetFuncDef *def) { __CPROVER_assert(def == &sp_def, "comp.fn: the function's definition is registered"); sp_defindex = nd_i32(); __CPROVER_assume(sp_defindex >= 0 && sp_defindex < 0x8000); return sp_defindex; }
+void sp_addflags_stub(JanetFuncDef *def) {}
+void *sp_grow_fn_stub(void *v, int32_t increment, int32_t itemsize) {
+    static struct { int32_t cap, cnt; SymPair data[9]; } symmem;
+    static struct { int32_t cap, cnt; JanetSlot data[4]; } slotmem;
+    if (v == (void *)0 && itemsize == (int32_t) sizeof(SymPair)) { symmem.cap = 10; symmem.cnt = 0; return symmem.data; }
+    if (v == (void *)0 && itemsize == (int32_t) sizeof(JanetSlot)) { slotmem.cap = 5; slotmem.cnt = 0; return slotmem.data; }
+    __CPROVER_assert(0, "harness: the preallocated vectors suffice"); __CPROVER_assume(0); return v;
+}
+#define FT_NONE 0
+#define FT_REST 1       /* & rest */
+#define FT_EXTRA 2      /* & (last): extra arguments accepted and ignored */
+#define FT_KEYS 3       /* &keys k */
+#define FT_NAMED1 4     /* &named n1 */
+#define FT_NAMED2 5     /* &named n1 n2 */
+/* one parameter list, concrete (symbolic token positions make symbolic execution of the parameter loop explode); h_fn enumerates all of them */
+static void sp_fn_case(int nfixed, int hasopt, int nopt, int tail) {
+    sp_setup(nd_int() ? JANET_SCOPE_FUNCTION : JANET_SCOPE_WHILE);
+    /* parameter list by the documented grammar: fixed* [&opt opt+] [& rest | & | &keys k | &named n+] */
+    Janet *pd = (Janet *) sp_params.data;
+    int np = 0, ord = 0;           /* tokens, value-carrying parameters so far */
+    int32_t expect_slot[6];         /* expected register of the symbol sp_pn[t] (-1: not a positional parameter) */
+    for (int t = 0; t < 6; t++) expect_slot[t] = -1;
+    int nsym = 0;
+    for (int i = 0; i < 2; i++) if (i < nfixed) { pd[np++] = sp_symv(sp_pn[nsym]); expect_slot[nsym++] = ord++; }
+    if (hasopt) { pd[np++] = sp_symv(sp_optm); for (int i = 0; i < 2; i++) if (i < nopt) { pd[np++] = sp_symv(sp_pn[nsym]); expect_slot[nsym++] = ord++; } }
+    int arity = ord, min_arity = hasopt ? nfixed : ord;
+    if (tail == FT_REST) { pd[np++] = sp_symv(sp_amp); pd[np++] = sp_symv(sp_pn[nsym]); expect_slot[nsym++] = ord++; }
+    else if (tail == FT_EXTRA) { pd[np++] = sp_symv(sp_amp); }
+    else if (tail == FT_KEYS) { pd[np++] = sp_symv(sp_keysm); pd[np++] = sp_symv(sp_pn[nsym]); expect_slot[nsym++] = ord++; }
+    else if (tail >= FT_NAMED1) { pd[np++] = sp_symv(sp_namedm); pd[np++] = sp_symv(sp_pn[nsym++]); if (tail == FT_NAMED2) pd[np++] = sp_symv(sp_pn[nsym++]); }
+    int vararg = tail == FT_REST || tail >= FT_KEYS, structarg = tail >= FT_KEYS;
+    int32_t max_arity = tail == FT_NONE ? arity : INT32_MAX;
+    sp_params.head.length = np; sp_params.head.gc.flags = nd_int() ? JANET_TUPLE_FLAG_BRACKETCTOR : 0;
+    /* (fn [params] body...), (fn name [params] body...), (fn :name [params] body...) */
+    int namekind = nd_int();
+    __CPROVER_assume(namekind >= 0 && namekind <= 2);
+    int nbody = nd_int();
+    __CPROVER_assume(nbody >= 0 && nbody <= 2);
+    Janet argv[4]; int32_t argn = 0;
+    if (namekind == 1) argv[argn++] = sp_symv(sp_fname);
+    if (namekind == 2) { argv[argn] = sp_symv(sp_fname); argv[argn++].type = JANET_KEYWORD; }
+    argv[argn++] = sp_tupv(pd);
+    for (int i = 0; i < 2; i++) if (i < nbody) argv[argn++] = sp_form(i + 1);
+    sp_popdef_calls = sp_tabput_calls = sp_destr_calls = 0;
+    JanetFopts opts = sp_opts();
+    sp_hint_reg = -1;          /* registers of the new function are a separate register file: 0, 1, 2, ... */
+    JanetSlot ret = janetc_fn(opts, argn, argv);
+
+    __CPROVER_assert(sp_errors == 0, "comp.fn: a parameter list of the documented grammar compiles without error");
+    sp_common_post("fn");
+    __CPROVER_assert(sp_popdef_calls == 1 && sp_pop_scope_is_function, "comp.fn: parameters and body are compiled in a function scope of their own which becomes the definition");
+    __CPROVER_assert(sp_def.arity == arity, "comp.fn: arity = number of positional parameters (markers, the rest parameter, the &keys struct and named parameters do not count)");
+    __CPROVER_assert(sp_def.min_arity == min_arity, "comp.fn: min arity = parameters before &opt (all positional ones without &opt)");
+    __CPROVER_assert(sp_def.max_arity == max_arity, "comp.fn: max arity = arity unless &, &keys or &named accept more arguments");
+    __CPROVER_assert(!!(sp_def.flags & JANET_FUNCDEF_FLAG_VARARG) == vararg && !!(sp_def.flags & JANET_FUNCDEF_FLAG_STRUCTARG) == structarg,
+                     "comp.fn: VARARG iff a rest parameter, &keys or &named collects the remaining arguments; STRUCTARG iff they are collected into a struct (&keys, &named)");
+    __CPROVER_assert(sp_def.slotcount >= arity + vararg, "comp.fn: the frame has a slot for every positional parameter and the collected rest");
+    /* parameter k lives in register k: any symbol bound when the definition is taken */
+    int g = nd_int();
+    __CPROVER_assume(g >= 0 && g < sp_pop_nsyms && g < 8);
+    SymPair sp = sp_pop_syms[g];
+    int t = nd_int();
+    __CPROVER_assume(t >= 0 && t < 6);
+    if (sp.sym == sp_pn[t]) {
+        __CPROVER_assert(expect_slot[t] >= 0 && sp.slot.index == expect_slot[t] && sp.slot.envindex < 0 && !(sp.slot.flags & JANET_SLOT_MUTABLE),
+                         "comp.fn: the k-th positional parameter (then the rest parameter / &keys struct) is bound to register k (where the VM puts argument k)");
+        REACH("fn: parameter bound");
+    }
+    int bound = 0;
+    for (int i = 0; i < 8; i++) if (i < sp_pop_nsyms && sp_pop_syms[i].sym == sp_pn[t]) bound++;
+    __CPROVER_assert(bound == (expect_slot[t] >= 0 ? 1 : 0), "comp.fn: every positional / rest / &keys parameter is bound exactly once (named parameters are bound by destructuring)");
+    if (tail >= FT_NAMED1) {
+        __CPROVER_assert(sp_destr_calls == 1 && sp_destr_left_type == JANET_TABLE && sp_destr_right == arity && sp_tabput_calls == (tail == FT_NAMED2 ? 2 : 1),
+                         "comp.fn: named parameters are destructured by keyword from the struct of remaining arguments in register arity");
+        REACH("fn: &named");
+    } else __CPROVER_assert(sp_destr_calls == 0, "comp.fn: symbol parameters need no destructuring");
+    /* body */
+    __CPROVER_assert(sp_calls[1] == (nbody >= 1) && sp_calls[2] == (nbody >= 2) && sp_ncalls == nbody && (nbody < 2 || sp_seq[1] < sp_seq[2]), "comp.fn: the body forms are compiled once each, in order");
+    if (nbody >= 1) {
+        int last = nbody;
+        __CPROVER_assert((sp_optflags[last] & SP_CTXBITS) == JANET_FOPTS_TAIL && (sp_scopeflags[last] & JANET_SCOPE_FUNCTION) && sp_parent_is_outer[last], "comp.fn: the last body form is in tail position of the new function");
+        if (nbody == 2) __CPROVER_assert((sp_optflags[1] & SP_CTXBITS) == JANET_FOPTS_DROP && (sp_scopeflags[1] & JANET_SCOPE_FUNCTION), "comp.fn: earlier body forms are compiled for effect");
+    } else {
+        __CPROVER_assert(sp_pop_codelen >= 1 && (sp_pop_lastinstr & 0xFF) == JOP_RETURN_NIL, "comp.fn: an empty body returns nil");
+        REACH("fn: empty body");
+    }
+    /* the closure in the enclosing code */
+    int32_t n = janet_v_count(sp_c.buffer);
+    __CPROVER_assert(sp_outer.flags & JANET_SCOPE_CLOSURE, "comp.fn: the enclosing scope is marked as creating a closure (an enclosing loop must be compiled as function)");
+    __CPROVER_assert(n >= SP_PRE + 1 && (sp_c.buffer[n - 1] & 0xFF) == JOP_CLOSURE ? 1 : ((sp_c.buffer[n - 2] & 0xFF) == JOP_CLOSURE), "comp.fn: the enclosing code instantiates the closure");
+    __CPROVER_assert((sp_c.buffer[SP_PRE] & 0xFF) == JOP_CLOSURE && (sp_c.buffer[SP_PRE] >> 16) == (uint32_t) sp_defindex, "comp.fn: the enclosing code gets one CLOSURE instruction for the registered definition and none of the function's code");
+    __CPROVER_assert(namekind == 0 ? sp_def.name == (const uint8_t *)0 : sp_def.name == sp_fname, "comp.fn: the definition carries the given name");
+    if (namekind == 1) {
+        /* self reference: the name is bound inside the function to a fresh register loaded with the function itself */
+        int selfbound = 0;
+        for (int i = 0; i < 8; i++) if (i < sp_pop_nsyms && sp_pop_syms[i].sym == sp_fname) selfbound++;
+        __CPROVER_assert(selfbound == 1, "comp.fn: a named function can refer to itself by name");
+        if (sp.sym == sp_fname) __CPROVER_assert(sp.slot.index >= ord, "comp.fn: the self reference does not occupy a parameter register");
+        REACH("fn: named");
+    }
+    if (sp_ctx == SP_USED) __CPROVER_assert(!(ret.flags & JANET_SLOT_CONSTANT) && ret.index == (int32_t)((sp_c.buffer[SP_PRE] >> 8) & 0xFF), "comp.fn: the form yields the closure");
+    if (hasopt) REACH("fn: &opt");
+    if (tail == FT_REST) REACH("fn: & rest");
+    if (tail == FT_EXTRA) REACH("fn: & alone");
+    if (tail == FT_KEYS) REACH("fn: &keys");
+    REACH("fn returns");
+}
+void h_fn(void) {
+    for (int nfixed = 0; nfixed <= 2; nfixed++)
+        for (int nopt = 0; nopt <= 2; nopt++)
+            for (int tail = FT_NONE; tail <= FT_NAMED2; tail++)
+                sp_fn_case(nfixed, nopt > 0, nopt, tail);
+}
